@@ -9,6 +9,10 @@ NOTE_COMMON = ("Holds only inside the bounds printed in evidence (pre: lines). T
 CHECKS = {
  "C18": dict(text="Every arrival sequence of <=3 (quick) / <=4 (thorough) messages over an integer clock, rule sets of one or two rules per scope (ip/global/address), two addresses, two commands: window bound, no over-blocking, address override, exemption, bounded state, cleanup, option parsing – decided per obligation by the solver over all values in the bounds.",
              ref="§5 C18", note="clock = arbitrary non-decreasing integers (exact arithmetic; float rounding outside the claim). "),
+ "C02": dict(text="LMDB scanner completeness per index (kinds, authors, author+kind, tags, created_at range scan, ids): every store of <=2 records (3 in the thorough tier for kinds/created_at/ids) with one symbolic byte per value/timestamp/id, 1-2 match values in planner order, symbolic since/until: each record whose value is requested and whose created_at is strictly inside the window is yielded. Decided by the solver over all byte values inside the bounds.",
+             ref="§5 C02", note="LMDB replaced by the contract model stubs/lmdb (sorted key list, MDB_SET_RANGE/MDB_PREV semantics). SQL side and planner/end-to-end obligations: see evidence for what is currently included. "),
+ "C04": dict(text="EVENT and EOSE frames produced by the real serializer/sender for a symbolic sub id, content or tag item (<=2 characters over an alphabet with one representative per JSON lexical class) and symbolic tag structure equal the frame assembled with the trusted encoders or parse (json.loads) to the expected array.",
+             ref="§5 C04", note="json.encoder.encode_basestring (C) replaced by a reference implementation validated against it at import; numbers checked by the hole technique (concrete). "),
 }
 NA = {}
 def main():
